@@ -98,8 +98,9 @@ type H struct {
 	MsgrDomain uint32
 	MsgrAddr   []byte
 
-	LimitSet   bool
-	LimitDenom string
+	LimitSet    bool
+	LimitDenom  string
+	LimitAmount math.Int
 
 	UsedSet    bool
 	UsedDomain uint32
@@ -231,9 +232,10 @@ func (h *H) setupRegistries() {
 	}
 	h.LimitSet = true
 	if h.LimitSet {
-		h.LimitDenom = verifrt.NondetString("limit_denom", 4)
+		h.LimitDenom = verifrt.NondetString("limit_denom", 5)
 		verifrt.Assume(asciiStr(h.LimitDenom))
-		h.K.SetPerMessageBurnLimit(ctx, types.PerMessageBurnLimit{Denom: h.LimitDenom, Amount: verifrt.NondetIntNonNil("limit_amount")})
+		h.LimitAmount = verifrt.NondetIntNonNil("limit_amount")
+		h.K.SetPerMessageBurnLimit(ctx, types.PerMessageBurnLimit{Denom: h.LimitDenom, Amount: h.LimitAmount})
 	}
 	h.UsedSet = true
 	if h.UsedSet {
